@@ -213,6 +213,17 @@ def run(ctx):
                         seen_sig[sig] = 1 if ctx.violation(sig, f"resolveSigningKey(kid={op['kid']!r}, issuer={op['issuer']!r}) asked the resolver for {line!r}, which is not a key id of the issuer's DID",
                                                            "resolvekid-not-of-issuer.jsonl", ops[i]) else 0
                     o_unsuppressed += seen_sig[sig]
+                # the resolver is asked for exactly the token's kid (the issuer when absent); only a did:jwk DID without fragment is completed with #0
+                want = op["kid"] or op["issuer"]
+                if want.startswith("did:jwk:") and "#" not in want:
+                    want += "#0"
+                if line != want:
+                    o_bad += 1
+                    sig = "C17:vcjwt:resolved-kid-altered"
+                    if sig not in seen_sig:
+                        seen_sig[sig] = 1 if ctx.violation(sig, f"resolveSigningKey(kid={op['kid']!r}, issuer={op['issuer']!r}) asked the resolver for {line!r} instead of {want!r}: "
+                                                           "the verification key is not the one the token's kid names", "resolvekid-altered.jsonl", ops[i]) else 0
+                    o_unsuppressed += seen_sig[sig]
                 continue
             if op.get("op") == "ambig":
                 table.setdefault("ambig", Counter())[f"{line}:conflated={op.get('conflated')}"] += 1
